@@ -102,6 +102,18 @@ def run(ctx):
         window = events[max(0, at - 12):at + 1]
         key = "C07:" + re.sub(r"[^a-z0-9]+", "-", b["what"].lower()).strip("-")[:70]
         ctx.violation(key, b["what"], replay={"violation": b, "events": window})
+    # a node joins when the clients' sessions (plain and lz4 / snappy) already exist: requests of a compressed client that
+    # reach the new node must travel on connections of the client's own session (RequestObs: DoTake compares the session
+    # of the connection with the session of the request)
+    from checks import reqfamily as rf
+    late = {}
+    for comp, nq in (("lz4", 2000 if t else 200), ("snappy", 1000 if t else 120)):
+        name = "late-node-%s-3x1" % comp
+        lv, lst, reqinfo, _ = rf.run_traces(ctx, name, ["-random", str(nq), "-nodes", "3", "-numconns", "1", "-clients", "3", "-workers", "3",
+                                                        "-round", "100", "-lateaddnode", "-compression", comp, "-okbias", "3"], sub="req")
+        rf.report(ctx, lv, reqinfo, "C07", lv["events"], tag=name)
+        late[name] = {"events": lv["total"], "requests": len(reqinfo)}
+    ctx.notes["late_node_stages"] = late
     ctx.assumptions += ["the fake backend implements USE with CQL identifier folding and a fixed keyspace set; a failed USE is recognised by the "
                         "backend's message text ('does not exist') in the proxy's error, not by its error code"]
     ctx.write_evidence("model_checking", {
